@@ -602,6 +602,11 @@ def normalize(prog, pinned=None):
     for p, B in list(prog.bodies.items()):
         if B.crate in WORKSPACE:
             process(B, 0, frozenset())
+            if getattr(B, "inlined", None):
+                if _devirtualize(B):
+                    _reset(B)
+                if _forward_returns(B):
+                    _reset(B)
     prog._callers = None
     # a new function all of whose uses were inlined no longer exists as far as the rules are concerned; its closures
     # now belong to the bodies it was inlined into
@@ -636,6 +641,128 @@ def normalize(prog, pinned=None):
     report["removed_bodies"] = gone
     prog._callers = None
     return report
+
+
+def _count_reads(obj, y, top=True):
+    """Occurrences of local `y` as (part of) a read place / operand / index in a statement or terminator (definitions of the
+    bare local - `lhs` / call `dest` equal to y - and storage markers are not reads)."""
+    n = 0
+    if isinstance(obj, dict):
+        if top and obj.get("k") in ("dead", "live"):
+            return 0
+        for k_, v_ in obj.items():
+            if k_ in ("lhs", "dest") and top:
+                if isinstance(v_, dict) and v_.get("l") == y:
+                    n += 1                      # a write through a projection of y keeps y alive as an object
+                    n += _count_reads(v_.get("p", []), y, False)
+                elif isinstance(v_, dict):
+                    n += _count_reads(v_, y, False)
+                continue
+            if k_ in ("pl", "l", "i") and v_ == y and isinstance(v_, int):
+                n += 1
+            elif isinstance(v_, (dict, list)):
+                n += _count_reads(v_, y, False)
+    elif isinstance(obj, list):
+        for v_ in obj:
+            if isinstance(v_, (dict, list)):
+                n += _count_reads(v_, y, False)
+    return n
+
+
+def _forward_returns(B):
+    """A temporary that is only ever moved into the return slot *is* the return slot: `_t = Ok(x); ..; _0 = move _t` becomes
+    `_0 = Ok(x)`.  The inliner produces exactly this for a helper called in tail position (its return value lands in a
+    temporary of the caller first), and rules recognise result constructions by their assignment to the return slot."""
+    argc = getattr(B, "argc", 0) or 0
+    changed = False
+    for _ in range(16):
+        hit = None
+        for bi, bl in enumerate(B.blocks):
+            if bl.get("cleanup"):
+                continue
+            for si, st in enumerate(bl["s"]):
+                if st["k"] == "assign" and st["lhs"] == 0 and st["rv"]["k"] == "use" and st["rv"]["op"].get("k") == "move" \
+                        and isinstance(st["rv"]["op"].get("pl"), int) and st["rv"]["op"]["pl"] > argc:
+                    hit = (bi, si, st["rv"]["op"]["pl"])
+                    break
+            if hit:
+                break
+        if not hit:
+            break
+        bi, si, y = hit
+        reads = 0
+        for bl in B.blocks:
+            for st in bl["s"]:
+                reads += _count_reads(st, y)
+            reads += _count_reads(bl["t"], y)
+        ndefs = sum(1 for bl in B.blocks for st in bl["s"] if st["k"] == "assign" and st["lhs"] == y) + \
+            sum(1 for bl in B.blocks if bl["t"]["k"] == "call" and bl["t"].get("dest") == y)
+        if reads != 1 or ndefs == 0:
+            # leave it; mark so that the scan does not find it again
+            B.blocks[bi]["s"][si] = dict(B.blocks[bi]["s"][si], rv=dict(B.blocks[bi]["s"][si]["rv"], op=dict(B.blocks[bi]["s"][si]["rv"]["op"], k="copy", was_move=True)))
+            continue
+        for bl in B.blocks:
+            for st in bl["s"]:
+                if st["k"] == "assign" and st["lhs"] == y:
+                    st["lhs"] = 0
+            if bl["t"]["k"] == "call" and bl["t"].get("dest") == y:
+                bl["t"]["dest"] = 0
+        del B.blocks[bi]["s"][si]
+        changed = True
+    # restore the operands that were only marked
+    for bl in B.blocks:
+        for st in bl["s"]:
+            if st["k"] == "assign" and st["rv"]["k"] == "use" and st["rv"]["op"].get("was_move"):
+                st["rv"]["op"]["k"] = "move"
+                del st["rv"]["op"]["was_move"]
+    return changed
+
+
+def _devirtualize(B):
+    """After inlining a helper that takes a function as a *value* (`fn helper(f: fn(..) -> R, ..) { f(..) }`) the call through
+    the parameter is a call of the function item the caller passed: if the callee local has exactly one definition chain
+    (moves / reify-fn-pointer casts) ending in a function-item constant, make the call direct."""
+    defs = {}
+    for bl in B.blocks:
+        for s_ in bl["s"]:
+            if s_["k"] == "assign" and isinstance(s_["lhs"], int):
+                defs.setdefault(s_["lhs"], []).append(s_["rv"])
+        t = bl["t"]
+        if t["k"] == "call" and t.get("dest") is not None:
+            d = t["dest"]
+            d = d if isinstance(d, int) else (d.get("l") if isinstance(d, dict) and not d.get("p") else None)
+            if d is not None:
+                defs.setdefault(d, []).append(None)
+    changed = False
+    for bl in B.blocks:
+        t = bl["t"]
+        if t["k"] != "call":
+            continue
+        f = t.get("func") or {}
+        if f.get("k") not in ("move", "copy") or not isinstance(f.get("pl"), int):
+            continue
+        l, hops = f["pl"], 0
+        target = None
+        while hops < 8:
+            hops += 1
+            ds = defs.get(l, [])
+            if len(ds) != 1 or ds[0] is None:
+                break
+            rv = ds[0]
+            op = rv.get("op") if rv["k"] == "use" or (rv["k"] == "cast" and "ReifyFnPointer" in str(rv.get("ck"))) else None
+            if op is None:
+                break
+            if op.get("k") == "const" and op.get("fn"):
+                target = op
+                break
+            if op.get("k") in ("move", "copy") and isinstance(op.get("pl"), int):
+                l = op["pl"]
+                continue
+            break
+        if target is not None:
+            t["func"] = {k_: v_ for k_, v_ in target.items() if k_ in ("k", "fn", "inst", "ga", "res", "trait", "self_ty", "local", "res_local", "ty")}
+            changed = True
+    return changed
 
 
 def _rv_ops(rv):
